@@ -250,6 +250,11 @@ class Ctx:
                 mm = re.search(r"\[.*; (\d+)\]$", base[2].strip())
                 if mm:
                     return Lin(k=int(mm.group(1)))
+            if base[0] in ("var", "arg", "tmp"):
+                # a fixed-size array (also one whose elements are assigned): its length is its type's
+                mm = re.match(r"^\[.*; (\d+)\]$", (self.ty_of(base) or "").strip().lstrip("&").replace("mut ", "").strip())
+                if mm:
+                    return Lin(k=int(mm.group(1)))
             a = len_atom(base)
             self.nonneg.add(a)
             return Lin({a: 1})
